@@ -2,12 +2,16 @@ import vf, slicer
 def units():
     return [vf.Unit('cmdline/state.c', flags=vf.PATHMAX64, transform=slicer.slices(['f', 'h']), remove=['__CPROVER_file_local_state_c_decoding_error']),
             vf.Unit('cmdline/stream.c', flags=vf.PATHMAX64)]
+def units_contract():
+    return [vf.Unit('cmdline/state.c', flags=vf.PATHMAX64, transform=slicer.slices(['f', 'h']), remove=['__CPROVER_file_local_state_c_decoding_error']),
+            vf.Unit('cmdline/stream.c', flags=vf.PATHMAX64, remove=['sgetb32', 'sgetb64'])]
 def record_jobs(prop, tier):
     quick = tier == 'quick'
-    U = units()
+    U = units(); UC = units_contract()
     J = []
-    def mk(name, entry, defs, sample):
-        J.append(vf.Job('%s/records/%s' % (prop, name), ['C10_records.c', 'stubs/log_stubs.c'], units=U, entry=entry, defines=defs, cflags=vf.PATHMAX64, unwind=18, timeout=1800 if quick else 7200, mem_gb=12,
+    def mk(name, entry, defs, sample, contract=False):
+        if contract: defs = defs + ['CONTRACT_DECODERS']; sample = dict(sample); sample['sgetb32 / sgetb64'] = 'contract stubs (decided in C10/stream)'
+        J.append(vf.Job('%s/records/%s' % (prop, name), ['C10_records.c', 'stubs/log_stubs.c'], units=UC if contract else U, entry=entry, defines=defs, cflags=vf.PATHMAX64, unwind=18, unwindset=['read.0:161'], timeout=1800 if quick else 7200, mem_gb=12, nobody_ok=('tommy_hash_u32',),
                         native=False, decisive=r'VF:|unwinding', cost=200, flags=['--max-field-sensitivity-array-size', '160'],
                         funcs=['state_read_content (record handler %s, verbatim slice)' % entry[-1], 'sgetc', 'sgetb32', 'sgetb64', 'sgetbs', 'sread', 'sfill'], sample=sample))
     bss = [256] if quick else [256, 65536]
@@ -17,20 +21,28 @@ def record_jobs(prop, tier):
             for nblk, run1 in ([(1, 1), (2, 1), (2, 2)] if quick else [(1, 1), (2, 1), (2, 2), (3, 1), (3, 2), (3, 3)]):
                 if quick and hsz == 8 and (nblk, run1) != (2, 1):
                     continue
-                mk('f/blocks%d-run%d/hash%d/bs%d' % (nblk, run1, hsz, bs), 'c10_record_f', ['BSIZE=%d' % bs, 'NBLK=%d' % nblk, 'RUN1=%d' % run1, 'HSZ=%d' % hsz, 'SYMFIELD=0'],
-                   {'record': 'f', 'blocks': nblk, 'blocks in first run': run1, 'block_size': bs, 'hash size': hsz, 'symbolic': 'name bytes, run states, hashes, clear_past_hash, force_nocopy, force_realloc'})
-        for fld in (1, 2, 3, 4, 5):
+                real = (nblk, run1) in ((1, 1), (2, 2))      # integration with the real sgetb32 / sgetb64 on records whose numbers are all concrete
+                tworuns = run1 < nblk
+                for st0 in ((0, 1, 2) if tworuns else (None,)):
+                    if quick and hsz == 8 and st0 not in (None, 1):
+                        continue
+                    mk('f/blocks%d-run%d%s/hash%d/bs%d' % (nblk, run1, '' if st0 is None else '-first' + 'bgp'[st0], hsz, bs), 'c10_record_f',
+                       ['BSIZE=%d' % bs, 'NBLK=%d' % nblk, 'RUN1=%d' % run1, 'HSZ=%d' % hsz, 'SYMFIELD=%d' % (0 if real else 9)] + ([] if st0 is None else ['RUNST0=%d' % st0]),
+                       {'record': 'f', 'blocks': nblk, 'blocks in first run': run1, 'state of the first run': 'symbolic' if st0 is None else 'bgp'[st0], 'block_size': bs, 'hash size': hsz,
+                        'symbolic': 'name bytes, run states, hashes, clear_past_hash, force_nocopy, force_realloc' + ('' if real else ', every numeric field')}, contract=not real)
+        FIELDS[9] = 'size, mtime seconds, nanoseconds, inode, first run position and array size together'
+        for fld in (1, 2, 3, 4, 5, 9):
             mk('f/field%d/bs%d' % (fld, bs), 'c10_record_f', ['BSIZE=%d' % bs, 'NBLK=1', 'RUN1=1', 'HSZ=16', 'SYMFIELD=%d' % fld],
-               {'record': 'f', 'blocks': 1, 'block_size': bs, 'numeric field ranging over all its values': FIELDS[fld]})
-        for nblk in ([] if quick else [1, 2]):      # short deleted runs: run out of memory at 12 GB in this sandbox, thorough tier only (reported undecided if they do)
+               {'record': 'f', 'blocks': 1, 'block_size': bs, 'numeric field ranging over all its values': FIELDS[fld]}, contract=True)
+        for nblk in [1, 2]:      # short deleted runs
             for df in (0, 1):
                 mk('h/deleted%d-%s/bs%d' % (nblk, 'first' if df else 'second', bs), 'c10_record_h', ['BSIZE=%d' % bs, 'NBLK=%d' % nblk, 'DELFIRST=%d' % df, 'HSZ=16'],
-                   {'record': 'h', 'deleted run': nblk, 'free run': 5, 'deleted run comes first': bool(df), 'hashes, clear_past_hash': 'symbolic'})
+                   {'record': 'h', 'deleted run': nblk, 'free run': 5, 'deleted run comes first': bool(df), 'hashes, clear_past_hash': 'symbolic'}, contract=True)
         mk('h/deleted-long/bs%d' % bs, 'c10_record_h', ['BSIZE=%d' % bs, 'BIGRUN', 'DELFIRST=1', 'HSZ=16'],
-           {'record': 'h', 'deleted run': 'symbolic count > 3 (all 32-bit values), followed up to the allocation of its pseudo file', 'block_size': bs})
+           {'record': 'h', 'deleted run': 'symbolic count > 3 (all 32-bit values), followed up to the allocation of its pseudo file', 'block_size': bs}, contract=True)
     return J
 def jobs(tier, seed):
     J = record_jobs('C10', tier)
-    J.append(vf.Job('C10/records/negctl', ['C10_records.c', 'stubs/log_stubs.c'], units=units(), entry='c10_records_negctl', defines=['NEGCTL'], cflags=vf.PATHMAX64, unwind=18, kind='negctl', native=False, decisive=r'VF:|unwinding', flags=['--max-field-sensitivity-array-size', '160'],
+    J.append(vf.Job('C10/records/negctl', ['C10_records.c', 'stubs/log_stubs.c'], units=units(), entry='c10_records_negctl', defines=['NEGCTL'], cflags=vf.PATHMAX64, unwind=18, unwindset=['read.0:161'], nobody_ok=('tommy_hash_u32',), kind='negctl', native=False, decisive=r'VF:|unwinding', flags=['--max-field-sensitivity-array-size', '160'],
                     sample={'wrong_oracle': 'past hash of a pending block kept although past hashes are distrusted'}))
     return J
